@@ -687,6 +687,7 @@ HEADER = '''(* GENERATED by translate/blocks.py from /repo/homonim - do not edit
    Integer arithmetic of block formation in the current source, one axis at a time:
    u = a block corner from the range, bs = block size, ov = overlap, lo / hi = processing window corners (off, off + n). *)
 From Coq Require Import ZArith Bool PrimFloat.
+From HVgen Require NormalFormCases.     (* the source was read through the normal form that file ties to its proved model *)
 Open Scope Z_scope.
 
 Definition translation_failed : bool := %s.
